@@ -91,6 +91,8 @@ type iteration struct {
 	fieldMappings   map[int]int
 	offsetsCh       chan common.OffsetsBySource
 	errCh           chan error
+	// err is the error (if any) that ended this iteration only
+	err error
 }
 
 // CreateTable creates a table based on the given opts.
@@ -438,6 +440,7 @@ func (db *DB) processIterations() {
 
 func (db *DB) doProcessIterations(iterations []*iteration) {
 	var maxDeadline time.Time
+	allHaveDeadlines := true
 	includeMemStore := false
 	allOutFields := make(core.Fields, 0)
 	hasOutField := func(field core.Field) bool {
@@ -454,6 +457,9 @@ func (db *DB) doProcessIterations(iterations []*iteration) {
 		deadline, hasDeadline := it.ctx.Deadline()
 		if hasDeadline && deadline.After(maxDeadline) {
 			maxDeadline = deadline
+		}
+		if !hasDeadline {
+			allHaveDeadlines = false
 		}
 		// default outFields to table fields
 		if it.outFields == nil {
@@ -484,6 +490,13 @@ func (db *DB) doProcessIterations(iterations []*iteration) {
 	combinedOnValue := func(dims bytemap.ByteMap, vals []encoding.Sequence) (bool, error) {
 		more := false
 		for i, it := range remainingIterations {
+			if deadline, hasDeadline := it.ctx.Deadline(); hasDeadline && time.Now().After(deadline) {
+				// This iteration's own deadline has passed, that's no reason to fail
+				// the other ones.
+				it.err = core.ErrDeadlineExceeded
+				delete(remainingIterations, i)
+				continue
+			}
 			itVals := make([]encoding.Sequence, len(it.outFields))
 			for i, val := range vals {
 				itI := it.fieldMappings[i]
@@ -493,8 +506,12 @@ func (db *DB) doProcessIterations(iterations []*iteration) {
 			}
 			itMore, err := it.onValue(dims, itVals)
 			if err != nil {
+				// Remember the error for this iteration only, the other iterations
+				// sharing this scan are not affected by it.
 				it.t.log.Errorf("Error while iterating: %v", err)
-				return false, err
+				it.err = err
+				delete(remainingIterations, i)
+				continue
 			}
 			if !itMore {
 				// This iteration doesn't want any more data, stop feeding it
@@ -507,7 +524,8 @@ func (db *DB) doProcessIterations(iterations []*iteration) {
 	}
 
 	newCtx := context.Background()
-	if !maxDeadline.IsZero() {
+	if !maxDeadline.IsZero() && allHaveDeadlines {
+		// Note - the shared scan only gets a deadline if all iterations have one
 		var cancel context.CancelFunc
 		newCtx, cancel = context.WithDeadline(newCtx, maxDeadline)
 		defer cancel()
@@ -518,7 +536,11 @@ func (db *DB) doProcessIterations(iterations []*iteration) {
 	}
 	for _, it := range iterations {
 		it.offsetsCh <- offsetsBySource
-		it.errCh <- err
+		if it.err != nil {
+			it.errCh <- it.err
+		} else {
+			it.errCh <- err
+		}
 	}
 }
 
